@@ -1761,6 +1761,14 @@ class Compiler:
 
             body = self.visit_Context(slot)
 
+            # The filler writes to the stream it is called with (the
+            # place of the slot in the macro); neither the stream of
+            # the function it is defined in, nor that of a translation
+            # block it is written in, is the right one.
+            body = [TranslationContext(
+                template("__append = __stream.append") + body
+            )]
+
             assert self._current_slot.pop() == slot.name
 
             callbacks.append(
